@@ -157,9 +157,10 @@ def check_pixel_times(ctx, o, descr, fovs, rpy, t, layout, dt_s):
         sg1 = geoloc.ScanGeometry(fovs[:, j:j + 1], np.zeros(1))
         with np.errstate(invalid="ignore"):
             one = np.asarray(geoloc.compute_pixels(o, sg1, times[j:j + 1], rpy)).reshape(3)
-        # (1 mm: in a batch the joint np.allclose exit of the latitude iteration may run a pass more than for one pixel alone,
-        #  which moves the nadir direction by ~1e-13 rad, i.e. micrometres on the ground)
-        if not np.allclose(pix[:, j], one, rtol=0, atol=1e-6, equal_nan=True):
+        # (1 m: the nadir direction comes from geodetic_lat, whose np.allclose exit leaves up to 1.2e-7 rad (theorem
+        #  geodeticLat_result_close_to_fixpoint); in a batch the joint exit may run a pass more than for one pixel alone, which
+        #  moves the pixel by up to ~0.2 m at 1500 km slant range.  A pixel placed at another pixel's time is off by >= 40 m.)
+        if not np.allclose(pix[:, j], one, rtol=0, atol=1e-3, equal_nan=True):
             ctx.violation("pixel_not_at_its_time", dict(descr, fovs=fovs.tolist(), rpy=list(rpy), layout=layout, dt_s=dt_s, index=j),
                           list(pix[:, j]), "the pixel computed alone at its own time: %r" % list(one), site="geoloc.compute_pixels")
             bad += 1
